@@ -1,12 +1,70 @@
 """Build steps shared by the checks. Everything is rebuilt from REPO's working tree; nothing is written
 under REPO (harness sources enter the build as overlay-virtual packages of the repo module)."""
+import json
 import os
 
 ZZ = "internal/zzverif"
+MOD = "github.com/cosmos/cosmos-proto"
+CHECKED_IN = [MOD + "/testpb", MOD + "/internal/testprotos/test3", MOD]
+
+
+def build_plugin(ck, scratch):
+    out = scratch.path("protoc-gen-go-pulsar")
+    if os.path.exists(out):
+        return out
+    rc, outp = ck.run(["go", "build", "-o", out, "./cmd/protoc-gen-go-pulsar"], cwd=ck.REPO, timeout=1200)
+    if rc != 0:
+        ck.log(outp[-4000:])
+        raise ck.Internal("the plugin does not build from the working tree")
+    return out
+
+
+def gen_stage(ck, scratch, sets):
+    """Run the working-tree plugin on the schema sets; returns (overlay entries, generated package paths, manifest)."""
+    plugin = build_plugin(ck, scratch)
+    ov = ck.build_overlay(scratch, ["schema", "gencorpus"])
+    gc = scratch.path("gencorpus")
+    rc, outp = ck.go_build(scratch, ov, ZZ + "/gencorpus", gc)
+    if rc != 0:
+        ck.log(outp[-4000:])
+        raise ck.Internal("gencorpus does not build")
+    outdir = scratch.path("gen")
+    os.makedirs(outdir, exist_ok=True)
+    rc, outp = ck.run([gc, "-plugin", plugin, "-out", outdir, "-sets", ",".join(sets)], cwd=scratch.dir, timeout=600)
+    if rc != 0:
+        ck.log(outp[-3000:])
+        raise ck.Internal("the working-tree plugin could not generate the matrix schema (%s); see C12" % ",".join(sets))
+    with open(os.path.join(outdir, "manifest.json")) as fh:
+        man = json.load(fh)
+    extra = {}
+    for f in man["files"]:
+        rel = f["pkg"][len(MOD) + 1:]
+        extra[os.path.join(ck.REPO, rel, f["name"])] = f["path"]
+    return extra, man["packages"], man
+
+
+def write_imports(scratch, engine, pkgs, man=None):
+    """imports_gen.go for the engine's package main: blank imports + request descriptors for C19."""
+    p = scratch.path("imports_gen_%s.go" % engine)
+    with open(p, "w") as fh:
+        fh.write("package main\n\nimport (\n")
+        for pkg in pkgs:
+            fh.write('\t_ "%s"\n' % pkg)
+        fh.write(")\n")
+    return p
 
 
 def prepare(ck, prop, spec, scratch, tier):
-    ov = ck.build_overlay(scratch, spec["needs"])
+    extra = {}
+    needs = list(spec["needs"])
+    if spec.get("gen"):
+        sets = list(spec["gen"].get(tier, spec["gen"]["quick"]))
+        gen_extra, pkgs, man = gen_stage(ck, scratch, sets)
+        extra.update(gen_extra)
+        imp = write_imports(scratch, spec["engine"], CHECKED_IN + pkgs, man)
+        extra[os.path.join(ck.REPO, ZZ, spec["engine"], "imports_gen.go")] = imp
+        spec["gen_manifest"] = man
+    ov = ck.build_overlay(scratch, needs, extra)
     out = scratch.path("bin-" + spec["engine"])
     rc, outp = ck.go_build(scratch, ov, ZZ + "/" + spec["engine"], out,
                            race=spec.get("race", False), test=spec.get("test", False))
@@ -21,9 +79,10 @@ def setup(ck, scratch):
     from registry import PROPS
     done = set()
     for prop, spec in sorted(PROPS.items()):
-        key = (spec["engine"], spec.get("race", False))
-        if key in done:
-            continue
-        done.add(key)
-        prepare(ck, prop, dict(spec), scratch, "quick")
+        for tier in ("quick", "thorough"):
+            key = (spec["engine"], spec.get("race", False), json.dumps(spec.get("gen", {}).get(tier, spec.get("gen", {}).get("quick", []))))
+            if key in done:
+                continue
+            done.add(key)
+            prepare(ck, prop, dict(spec), scratch, tier)
     return 0
